@@ -51,6 +51,10 @@ class Check:
         self.not_decided = []
         self.functions = set()
         self.templated = set()
+        self.matcher_errors = set()
+        self.cone_functions = set()
+        self.implied = []
+        self.all_equivalent = False
         self.cone = None
         self.minimums = {}
         self.explanation = ''
@@ -83,8 +87,10 @@ class Check:
         self.obs.append(o)
         return o
 
-    def error(self, rule, msg):
+    def error(self, rule, msg, matcher=False):
         self.errors.append((rule, msg))
+        if matcher:
+            self.matcher_errors.add((rule, msg))
 
     def expect(self, rule, minimum):
         self.minimums[rule] = minimum
@@ -111,7 +117,9 @@ class Check:
                     fi = repo.funcs.get(o.anchor)
                     memo[o.anchor] = function_diff(fi) if fi is not None else None
                 o.stmtdiff = memo[o.anchor]
-        big = [o for o in self.obs if not o.ok and o.stmtdiff and ((o.stmtdiff[0] >= 8 and o.stmtdiff[0] >= 0.5 * o.stmtdiff[1]) or o.stmtdiff[0] >= 40)]
+        if os.environ.get('PVS_DIFFS'):
+            print('PVS_DIFFS', sorted({(o.anchor.split(':')[-1], o.stmtdiff) for o in self.obs if not o.ok and o.stmtdiff and not o.robust}))
+        big = [o for o in self.obs if not o.ok and o.stmtdiff and ((o.stmtdiff[0] >= 9 and o.stmtdiff[0] >= 0.6 * o.stmtdiff[1]) or o.stmtdiff[0] >= 20)]
         refused = []
         inl = getattr(repo, 'inliner', None) if repo is not None else None
         if inl is not None:
@@ -151,14 +159,44 @@ class Check:
                 keep.append(o)
         self.obs = keep
 
+    def settle_equivalence(self, repo):
+        """When every function in scope (the functions the rules looked at and their dependency cone) is either proven
+        equal to its reviewed reference form or has exactly its reviewed statements, nothing the specific rules rest on
+        has changed: a specific rule that still fails, or whose matcher no longer recognises an idiom, is looking at a
+        re-phrasing (a temporary introduced, a lambda turned into a method) and its obligation is implied."""
+        if repo is None or any((not o.ok) and o.rule in ('RECUR', 'DEPS') for o in self.obs):
+            return
+        if any((r, m) not in self.matcher_errors for r, m in self.errors):
+            return
+        from .template import function_diff
+        for q in sorted(set(self.functions) | set(self.cone_functions)):
+            if q in self.equiv:
+                continue
+            fi = repo.funcs.get(q)
+            d = function_diff(fi) if fi is not None else None
+            if d is None or d[0] != 0:
+                return
+        known = load_known()
+        for o in self.obs:
+            if not o.ok and not o.robust and match_known(known, self.prop, o) is None:
+                o.ok = True
+                o.detail = 'implied: every function in scope equals its reviewed form; the rule\'s matcher did not follow the re-phrasing | ' + (o.detail or '')
+                self.implied.append('%s %s' % (o.rule, o.construct))
+        for r, m in list(self.errors):
+            self.implied.append('%s matcher: %s' % (r, m[:120]))
+        if self.implied or self.errors:
+            self.all_equivalent = True
+        self.errors = []
+
     def finish(self, repo=None):
+        self.settle_equivalence(repo)
         self.settle_restructuring(repo)
         known = load_known()
         counts = {}
         for o in self.obs:
             counts[o.rule] = counts.get(o.rule, 0) + 1
         for rule, minimum in self.minimums.items():
-            if counts.get(rule, 0) < minimum and rule not in self.soft_skipped and not self.restructured:
+            if counts.get(rule, 0) < minimum and rule not in self.soft_skipped and not self.restructured and not self.all_equivalent:
                 self.errors.append((rule, 'rule matched %d instance(s), fewer than the %d confirmed by reading '
                                           '(a rule that matches nothing must not pass vacuously)' % (counts.get(rule, 0), minimum)))
         violations = []
@@ -224,6 +262,7 @@ class Check:
             'minimum_instances': self.minimums,
             'functions_analysed': sorted(self.functions),
             'dependency_cone': self.cone,
+            'implied_by_equivalence': self.implied,
             'not_decided': self.not_decided,
             'checker_cmd': './check %s --tier %s' % (self.prop, self.tier),
             'trusted_base': self.trusted or ['CPython ast module', 'rule tables in pvs/rules (confirmed by reading)'],
